@@ -19,9 +19,10 @@ RULE = (
     "groups = one scenario (screening on in ~70% so the parallel kernel runs, adaptive, time-dependent drives, callable currents so "
     "the random validator runs) x 1 reference + 3..5 variant executions, each in a fresh interpreter: PYTHONHASHSEED, threads 1..16, "
     "chunk size, affinity mask, cwd/output location (absolute, relative, none), wall clock script, validator RNG seed, pre-work in the "
-    "process; non-trivial = at least 3 updates in every member and all members ran; distinct = distinct group digests"
+    "process (about 20% of the groups); the other groups run their members inside one worker process (threads, chunk size, clock, RNG "
+    "seed, output location, earlier work vary) so the parallel kernel is sampled far more often; non-trivial = at least 3 updates in every member and all members ran; distinct = distinct group digests"
 )
-BUDGET = {"quick": {"runs": 24, "chunk": 1, "selftest": 2, "max_wall": 800}, "thorough": {"runs": 600, "chunk": 2, "selftest": 2}}
+BUDGET = {"quick": {"runs": 120, "chunk": 2, "selftest": 2, "max_wall": 800}, "thorough": {"runs": 2500, "chunk": 4, "selftest": 2}}
 COMPONENTS = {"real": ["meshing (Triangle)", "TDGLSolver incl. numba parallel screening kernel", "validator RNG path", "Runner/DataHandler/Solution", "fresh CPython interpreters"], "stub": ["wall clock (scripted, differs per member)", "validator RNG seed (differs per member)"]}
 ASSUMPTIONS = ["The interleaving of threads inside a numba/OpenMP kernel is sampled (thread count, chunk size, affinity incl. 16 threads on 1 core), not controlled."]
 VERIF = os.path.dirname(os.path.dirname(os.path.dirname(os.path.abspath(__file__))))
@@ -39,6 +40,7 @@ def gen(seed, idx, tier):
         field_kinds=("const", "ramp", "pw", "sin"),
         size=rnd.choice(["small", "medium"]),
     )
+    scn["max_screen_iters"] = 1500  # bounded: 16 threads pinned to one core are slow
     cur = scn["drive"]["currents"]
     if cur is not None and cur["kind"] == "const" and rnd.random() < 0.6:
         cur["kind"] = "const_callable"  # the random validator runs
@@ -62,7 +64,13 @@ def gen(seed, idx, tier):
         variants[1]["threads"] = 16
         variants[2]["threads"] = 16
         variants[2]["affinity"] = [0]
-    return {"base": scn, "variants": variants, "options": scn["options"], "device": scn["device"], "drive": scn["drive"], "faults": []}
+    mode = "fresh" if rnd.random() < 0.2 else "inproc"
+    if mode == "inproc":
+        # 16 workers share 16 cores: keep the in-process members to a few threads each
+        for v in variants:
+            v["threads"] = min(v["threads"], rnd.choice([2, 3, 4]))
+            v["affinity"] = None
+    return {"mode": mode, "base": scn, "variants": variants, "options": scn["options"], "device": scn["device"], "drive": scn["drive"], "faults": []}
 
 
 def execute(scn, var, timeout=600):
@@ -71,6 +79,7 @@ def execute(scn, var, timeout=600):
     env["PYTHONPATH"] = os.environ.get("TDGLSIM_REPO", "/repo") + ":" + VERIF
     env["NUMBA_NUM_THREADS"] = "16"
     env["OPENBLAS_NUM_THREADS"] = "1"
+    env["OMP_WAIT_POLICY"] = "PASSIVE"  # oversubscribed OpenMP threads must not spin
     env.pop("HDF5_USE_FILE_LOCKING", None)
     p = subprocess.run([sys.executable, os.path.join(VERIF, "sim", "c09_exec.py")], input=json.dumps({"scenario": scn, "variant": var}), env=env, capture_output=True, text=True, timeout=timeout)
     lines = [l for l in p.stdout.splitlines() if l.startswith("C09PARTS ")]
@@ -81,12 +90,51 @@ def execute(scn, var, timeout=600):
     return json.loads(lines[-1][len("C09PARTS "):])
 
 
+def execute_inproc(scn, var):
+    """Same scenario in THIS worker process under another thread count / chunk size / clock /
+    RNG seed / output location / amount of earlier work: cheap, so the parallel kernel is
+    sampled far more often than fresh interpreters allow."""
+    import numba
+
+    from ..common import digest_arrays
+    from ..engine import run_scenario
+
+    s = copy.deepcopy(scn)
+    s["env"] = {"threads": var.get("threads", 1), "clock": var.get("clock"), "rng_seed": var.get("rng_seed", 1), "cwd": var.get("cwd", "work")}
+    s["observer"] = {"output": var.get("output")}
+    old_chunk = numba.get_parallel_chunksize()
+    if var.get("chunk"):
+        numba.set_parallel_chunksize(var["chunk"])
+    try:
+        sim, h = run_scenario(s)
+    finally:
+        numba.set_parallel_chunksize(old_chunk)
+    try:
+        ups = [(st, u["step"], repr(u["dt"]), digest_arrays(*[u["out"][k] for k in sorted(u["out"])]), u["n_screen"]) for st in ("T", "S") for u in h.stages[st] if u["out"] is not None]
+        frs = [(fr["number"], fr["step"], repr(fr["time"]), digest_arrays(*[fr["data"][k] for k in sorted(fr["data"])]), None if fr["running"] is None else digest_arrays(*[fr["running"][k] for k in sorted(fr["running"])])) for fr in h.frames]
+        m = h.device.mesh
+        return {
+            "mesh": digest_arrays(m.sites, m.elements, m.areas, m.edge_mesh.edges, m.edge_mesh.dual_edge_lengths),
+            "updates": digest_obj(ups),
+            "frames": digest_obj(frs),
+            "fixed": None if h.fixed is None else digest_arrays(*[h.fixed[k] for k in sorted(h.fixed)]),
+            "outcome": h.outcome if not h.outcome.startswith("raised") else h.outcome + ":" + h.exc[1][:60],
+            "n_updates": len(ups),
+            "threading_layer": None,
+        }
+    finally:
+        sim.cleanup()
+
+
 def run(scn):
     from concurrent.futures import ThreadPoolExecutor
 
     base_scn = scn["base"]
-    with ThreadPoolExecutor(max_workers=len(scn["variants"])) as tp:
-        parts = list(tp.map(lambda v: execute(base_scn, v), scn["variants"]))
+    if scn.get("mode") == "inproc":
+        parts = [execute_inproc(base_scn, v) for v in scn["variants"]]
+    else:
+        with ThreadPoolExecutor(max_workers=len(scn["variants"])) as tp:
+            parts = list(tp.map(lambda v: execute(base_scn, v), scn["variants"]))
     ref = parts[0]
     V = []
     for j, p in enumerate(parts[1:], 1):
@@ -121,9 +169,9 @@ def run(scn):
         "exc": None,
         "violations": [dict(v) for v in V],
         "nontrivial": nup >= 3,
-        "sig": (ref["outcome"].split(":")[0], bool(base_scn["options"]["include_screening"]), bool(base_scn["options"]["adaptive"]), base_scn["drive"]["field"]["kind"], (base_scn["drive"]["currents"] or {}).get("kind"), tuple(sorted({v["threads"] for v in scn["variants"]})), ref.get("threading_layer")),
+        "sig": (scn.get("mode"), ref["outcome"].split(":")[0], bool(base_scn["options"]["include_screening"]), bool(base_scn["options"]["adaptive"]), base_scn["drive"]["field"]["kind"], (base_scn["drive"]["currents"] or {}).get("kind"), tuple(sorted({v["threads"] for v in scn["variants"]})), ref.get("threading_layer")),
         "fingerprint": digest_obj([{k: v for k, v in p.items()} for p in parts]),
-        "stats": {"steps": sum(p["n_updates"] for p in parts), "sim_time": 0.0, "probes": {"fresh_processes": len(parts), "threads:" + "/".join(str(v["threads"]) for v in scn["variants"]): 1}, "faults": [], "attempts": 0, "screen_iters": 0, "sites": 0, "members": len(parts)},
+        "stats": {"steps": sum(p["n_updates"] for p in parts), "sim_time": 0.0, "probes": {("fresh_processes" if scn.get("mode") != "inproc" else "inproc_executions"): len(parts), "threads:" + "/".join(str(v["threads"]) for v in scn["variants"]): 1}, "faults": [], "attempts": 0, "screen_iters": 0, "sites": 0, "members": len(parts) if scn.get("mode") != "inproc" else 0, "inproc_members": len(parts) if scn.get("mode") == "inproc" else 0},
         "discard": None,
     }
 
@@ -146,4 +194,4 @@ def shrink(scn):
 
 
 def evidence_extra(results):
-    return {"fresh_interpreters_started": sum(r["stats"].get("members", 0) for r in results)}
+    return {"fresh_interpreters_started": sum(r["stats"].get("members", 0) for r in results), "in_process_executions": sum(r["stats"].get("inproc_members", 0) for r in results)}
